@@ -2,6 +2,7 @@ package main
 
 import (
 	"go/ast"
+	"go/constant"
 	"go/token"
 	"go/types"
 )
@@ -160,10 +161,27 @@ func (ev *evaluator) execStmt(s ast.Stmt, st state, info *types.Info) []completi
 		return dead
 	case *ast.AssignStmt:
 		if s.Tok != token.ASSIGN && s.Tok != token.DEFINE {
-			// op-assign: evaluate rhs for effects, lhs becomes unknown
+			// op-assign: constants fold (x += "lit", n -= 1); anything else makes the target unknown
 			live, dead := ev.evalLive(s.Rhs[0], st, info)
 			for _, r := range live {
-				dead = append(dead, completion{kind: cNormal, st: ev.assign(s.Lhs[0], unknown, r.st, info, false)})
+				nv := unknown
+				var op token.Token
+				switch s.Tok {
+				case token.ADD_ASSIGN:
+					op = token.ADD
+				case token.SUB_ASSIGN:
+					op = token.SUB
+				case token.MUL_ASSIGN:
+					op = token.MUL
+				}
+				if op != 0 {
+					for _, cur := range ev.evalExpr(s.Lhs[0], r.st, info) {
+						if !cur.noret && !cur.spin {
+							nv = binop(op, cur.v, r.v)
+						}
+					}
+				}
+				dead = append(dead, completion{kind: cNormal, st: ev.assign(s.Lhs[0], nv, r.st, info, false)})
 			}
 			return dead
 		}
@@ -173,7 +191,17 @@ func (ev *evaluator) execStmt(s ast.Stmt, st state, info *types.Info) []completi
 		}
 		return dead
 	case *ast.IncDecStmt:
-		return []completion{{kind: cNormal, st: ev.assign(s.X, unknown, st, info, false)}}
+		nv := unknown
+		for _, cur := range ev.evalExpr(s.X, st, info) {
+			if !cur.noret && !cur.spin && cur.v.k == avConst && cur.v.c.Kind() == constant.Int {
+				op := token.ADD
+				if s.Tok == token.DEC {
+					op = token.SUB
+				}
+				nv = binop(op, cur.v, constVal(constant.MakeInt64(1)))
+			}
+		}
+		return []completion{{kind: cNormal, st: ev.assign(s.X, nv, st, info, false)}}
 	case *ast.ReturnStmt:
 		cur := []struct {
 			vals []aval
@@ -578,41 +606,81 @@ func (ev *evaluator) execRange(s *ast.RangeStmt, label string, st state, info *t
 	live, dead := ev.evalLive(s.X, st, info)
 	out = append(out, dead...)
 	objs := assignedIn(s, info)
-	// range variables are unknown in every iteration
+	var keyObj types.Object
 	var rangeVars []types.Object
-	for _, e := range []ast.Expr{s.Key, s.Value} {
+	for i, e := range []ast.Expr{s.Key, s.Value} {
 		if id, ok := e.(*ast.Ident); ok && id.Name != "_" {
-			if o := info.Defs[id]; o != nil {
+			o := info.Defs[id]
+			if o == nil {
+				o = info.Uses[id]
+			}
+			if o != nil {
 				rangeVars = append(rangeVars, o)
-			} else if o := info.Uses[id]; o != nil {
-				rangeVars = append(rangeVars, o)
+				if i == 0 {
+					keyObj = o
+				}
 			}
 		}
+	}
+	// over a slice, array or string the key is the iteration number
+	indexed := false
+	if tv, ok := info.Types[s.X]; ok {
+		switch tv.Type.Underlying().(type) {
+		case *types.Slice, *types.Array, *types.Pointer:
+			indexed = true
+		}
+	}
+	type item struct {
+		st   state
+		iter int
 	}
 	for _, r := range live {
 		// abstract fixpoint over the states reachable after 0, 1, 2, ... iterations
 		seen := map[string]bool{}
-		work := []state{r.st}
+		visits := map[string]int{}
+		work := []item{{r.st, 0}}
 		overflow := false
 		for len(work) > 0 {
 			cur := work[len(work)-1]
 			work = work[:len(work)-1]
-			k := cur.env.key()
+			base := havoc(cur.st, rangeVars)
+			k := base.env.key()
+			if cur.st.tr != nil {
+				// with events recorded, the same abstract state reached with a longer trace is a new path,
+				// but only for the first few visits (0, 1, 2 iterations show the emitted shape)
+				if visits[k] >= 3 {
+					continue
+				}
+				visits[k]++
+				k += "|" + traceKey(cur.st.tr)
+			}
+			if cur.iter <= 2 && indexed {
+				k += "|#" + itoa(cur.iter)
+			}
 			if seen[k] {
 				continue
 			}
 			seen[k] = true
-			if len(seen) > 24 {
+			if len(seen) > 32 {
 				overflow = true
 				break
 			}
 			// leaving the loop after this many iterations
-			out = append(out, completion{kind: cNormal, st: cur})
-			for _, cp := range ev.execBlock(s.Body.List, havoc(cur, rangeVars), info) {
+			out = append(out, completion{kind: cNormal, st: base})
+			if cur.st.tr != nil && cur.iter >= 3 {
+				continue // shape enumeration: three iterations show every emitted pattern
+			}
+			body := base
+			if indexed && keyObj != nil && cur.iter <= 2 {
+				e := body.env.clone()
+				e[keyObj] = constVal(constant.MakeInt64(int64(cur.iter)))
+				body = state{env: e, tr: body.tr}
+			}
+			for _, cp := range ev.execBlock(s.Body.List, body, info) {
 				mine := cp.label == "" || cp.label == label
 				switch {
 				case cp.kind == cNormal, cp.kind == cContinue && mine:
-					work = append(work, havoc(cp.st, rangeVars))
+					work = append(work, item{cp.st, cur.iter + 1})
 				case cp.kind == cBreak && mine:
 					out = append(out, completion{kind: cNormal, st: havoc(cp.st, rangeVars)})
 				default:
